@@ -29,14 +29,20 @@ MANIFEST = {
             "(offsets within B, consecutive transitions more than D >= 2B apart): Location.lookup returns the offset in force with start <= u < end; time.Date returns w - off(w - off(w)), an instant "
             "showing the requested wall clock whenever one exists (THE instant when the wall clock is regular) and, inside a gap, the wall clock shifted by the gap (which way is characterised); "
             "start/end of day have the instant's civil date, read 00:00:00 / 23:59:59, bracket the instant and are the exact day boundary whenever that wall clock exists exactly once "
-            "(distance = time of day corrected by the offset change, < 24 h + 2B); a table without transitions is the fixed-offset model (all z_ functions equal); the 168-hour code as written "
+            "(distance = time of day corrected by the offset change, < 24 h + 2B); over tables too (ZoneWeekProofs.v): same-day/week/month are equivalence relations for EVERY table and, "
+            "with regular midnights, same day = equal civil dates = membership in [start of day, start of the next civil day) (a day of 24 h minus the offset change); start/end of week are 00:00:00 / 23:59:59 of "
+            "the requested weekday of the Monday-based civil week (exact day boundary, distances < 7 x 24 h + 2B); the repaired relative week start is 00:00:00 of the latest requested weekday not after the instant "
+            "in civil days, shifted by 7k civil days; the repaired week window is exactly the 7 civil days Monday..Sunday around its anchor (167 / 169 h in a transition week) and consecutive windows tile; the "
+            "repaired next moment is strictly future, reads h:m:s, at most 24 h + 2B away and minimal — each under the stated decidable regularity hypotheses (the wall clocks involved exist exactly once), "
+            "with examples on New_York / Berlin transition days; a table without transitions is the fixed-offset model (all z_ functions equal); the 168-hour code as written "
             "is refuted on the New_York table inside Coq. The table model is compared with the Go code and package time on every run on the tables of America/New_York, Europe/Berlin, "
             "Australia/Lord_Howe, America/Sao_Paulo, America/Havana, Asia/Kathmandu, Pacific/Apia extracted with Time.ZoneBounds (every helper output, time.Date in gaps and repeated hours, "
             "AddDate, lookup, zone_okb 18h 36h of each table, midnight_regular of each generated day), in addition to the Go monitors that state the property directly "
             "(every day of the cycle x every weekday x week offset -3..3 in thorough).",
-    "note": "For zones with offset changes the theorems cover lookup, time.Date, start and end of day; the week, relative-week, next-moment and same-day/week/month clauses are NOT yet proved over tables "
-            "(proved for fixed offsets; over tables they are covered by the model/implementation correspondence on the seven real tables and by the Go monitors, "
-            "where a repeated or skipped wall-clock time on a day means what time.Date resolves it to). Not proved: the zone database itself, the TZ-string extension rule, leap seconds (Go has none). "
+    "note": "For zones with offset changes the week, relative-week, week-window, next-moment and same-day theorems carry regularity hypotheses (midnight_regular / wall_regular of the named days: today's midnight, "
+            "the target day's, Monday's / next Monday's, now's clock a week earlier when the relative helper steps back, h:m:s today / on the landing day / the day before); where a wall clock involved is skipped or "
+            "repeated nothing is proved (there the helpers are covered by the model/implementation correspondence on the seven real tables and by the Go monitors, "
+            "where a repeated or skipped wall-clock time on a day means what time.Date resolves it to); in particular tomorrow's h:m:s in a gap is the open finding C19-next-moment-in-a-midnight-gap. Not proved: the zone database itself, the TZ-string extension rule, leap seconds (Go has none). "
             "Observations in zones whose DST starts at local midnight (Sao_Paulo, Havana, Kathmandu 1986, Apia 2010): on a day without 00:00:00 the week helpers inherit the 23:00 / 00:15 that time.Date "
             "substitutes, and GetNextMoment can return an instant that is not in the future (Havana, eve of the shift, time inside the skipped hour); the monitors skip and count these "
             "(distribution monitor_checks_skipped), the model reproduces them. The model follows the code repaired by "
